@@ -22,6 +22,7 @@ import (
 	"fmt"
 	"io"
 	"log/slog"
+	"path/filepath"
 	"strings"
 	"testing"
 	"time"
@@ -80,13 +81,15 @@ type config struct {
 
 // The reference set of shell metacharacters. It is written from the POSIX shell
 // grammar, not from the implementation: control and redirection operators,
-// the command terminator newline, expansion introducers, the escape character,
-// and the pattern / brace / tilde / history characters. Blanks and quotes are
+// expansion introducers, the escape character, and the pattern / brace / tilde /
+// history characters. Whitespace (blank, tab, newline, CR) and quotes are
 // deliberately NOT in the set: the user documentation promises that
-// `bash -c "echo hello"` (an argument with a space) works.
+// `bash -c "echo hello"` (an argument with a space) works, and the statement does
+// not say whether the other whitespace characters count; arguments containing
+// them are therefore unconstrained (an implementation may accept or refuse them).
 var metachars = []struct{ name, ch string }{
 	{"semicolon", ";"}, {"pipe", "|"}, {"ampersand", "&"}, {"dollar", "$"}, {"backtick", "`"},
-	{"gt", ">"}, {"lt", "<"}, {"lparen", "("}, {"rparen", ")"}, {"newline", "\n"},
+	{"gt", ">"}, {"lt", "<"}, {"lparen", "("}, {"rparen", ")"},
 	{"lbrace", "{"}, {"rbrace", "}"}, {"lbracket", "["}, {"rbracket", "]"},
 	{"star", "*"}, {"question", "?"}, {"tilde", "~"}, {"bang", "!"}, {"backslash", "\\"},
 }
@@ -94,7 +97,7 @@ var metachars = []struct{ name, ch string }{
 // arguments the statement does not forbid (an implementation may still refuse them)
 var plainArgs = []string{
 	"-la", "file.txt", "./rel/path", "../up", "echo hello", "k=v", "--file=/etc/hosts", "it's", "\"q\"", "#c",
-	"a\tb", "a\rb", "a\x00b", "\uff1b", "", "..", "-", "C:/x", "100%", "^caret", "a,b", "@host", "+x", "name:tag",
+	"a\tb", "a\rb", "a\nb", "a\x00b", "\uff1b", "", "..", "-", "C:/x", "100%", "^caret", "a,b", "@host", "+x", "name:tag",
 }
 
 var absArgs = []string{"/etc/passwd", "/", "/tmp/../etc/shadow", "//double"}
@@ -533,7 +536,9 @@ func (w *world) onExec(rec *simexec.Record) {
 		simrt.Failf("unauthorised-start", "no-valid-meta("+r.rawKind+")",
 			"request %d never sent a valid META (%s) yet %s(%q, %q) was called", r.id, r.rawKind, rec.Kind, rec.Name, rec.Args)
 	}
-	if rec.Name != r.eff.Command || !sameArgs(rec.Args, r.eff.Args) {
+	// (an implementation may resolve the base name to a full path before exec)
+	sameCmd := rec.Name == r.eff.Command || (isBaseName(r.eff.Command) && filepath.Base(rec.Name) == r.eff.Command)
+	if !sameCmd || !sameArgs(rec.Args, r.eff.Args) {
 		simrt.Failf("unattributed-start", "started command differs from the requested one",
 			"request %d asked for %q %q, the process start attempt is %q %q", r.id, r.eff.Command, r.eff.Args, rec.Name, rec.Args)
 	}
